@@ -37,10 +37,19 @@ def conversation_steps(unix, variant):
     if variant == 'refused':
         return [('line', b'REJECTED EXTERNAL'), ('line', b'REJECTED'),
                 ('line', b'REJECTED')]
-    steps = [('line', b'OK ' + fakes.GUID)]
+    steps = []
+    if variant == 'later-mech':
+        # the first two mechanisms are refused the way the reference daemon
+        # does it (REJECTED followed by the list of what it supports), the
+        # third is accepted
+        steps += [('line', b'REJECTED EXTERNAL DBUS_COOKIE_SHA1 ANONYMOUS'),
+                  ('line', b'REJECTED EXTERNAL DBUS_COOKIE_SHA1 ANONYMOUS')]
+    steps.append(('line', b'OK ' + fakes.GUID))
     if unix:
-        steps.append(('line', b'AGREE_UNIX_FD'))
-    steps.append(('hello', variant))
+        steps.append(('line', b'AGREE_UNIX_FD' if variant != 'later-mech'
+                      else b'ERROR "Unknown command"'))
+    steps.append(('hello', 'hello-ok' if variant == 'later-mech'
+                  else variant))
     return steps
 
 
@@ -138,7 +147,8 @@ def run_connect(entries, reach, variant, crash_at):
                 lost = True
             out['lost'] = lost
             out['steps_done'] = len(steps) if done_all else crash_at
-            out['hello_succeeded'] = (variant == 'hello-ok' and done_all)
+            out['hello_succeeded'] = (variant in ('hello-ok', 'later-mech')
+                                      and done_all)
             # afterwards: run the clock out
             r.advance(1000)
         return out
@@ -374,7 +384,7 @@ def _task_connect(task):
                 continue
             unix = usable[first] in ('unix', 'abstract')
             for variant in ('hello-ok', 'hello-error', 'hello-error-bare',
-                            'hello-error-nonstr', 'refused'):
+                            'hello-error-nonstr', 'refused', 'later-mech'):
                 n = len(conversation_steps(unix, variant))
                 for crash_at in list(range(0, n + 1)) + [None]:
                     check_connect(res, entries, reach, variant, crash_at)
@@ -721,7 +731,7 @@ def run(ctx):
         'A (crash-point enumeration): every address list of <= 3 entries '
         'over %r (and the empty list) x every reachability vector; on the '
         'first reachable endpoint a scripted server runs the handshake and '
-        'Hello (success / error reply with a text, without a body, with a non-string first value / all mechanisms refused) and the '
+        'Hello (success / error reply with a text, without a body, with a non-string first value / all mechanisms refused / the first two refused with the list of supported mechanisms and the third accepted) and the '
         'transport closes after 0..n server steps or not at all; endpoints '
         'must be tried in order and none after the first reachable, and the '
         'Deferred must have fired exactly once at quiescence (connection '
